@@ -839,7 +839,9 @@ class DocutilsRenderer(RendererProtocol):
         # registered (e.g. an explicit {#id}) must not be offered again
         registered = node["names"][:]
         node["names"] = [name]
-        self.document.note_implicit_target(node, node)
+        # a "duplicate target" message must not become content of a rubric
+        msgnode = node if isinstance(node, nodes.section) else self.current_node
+        self.document.note_implicit_target(node, msgnode)
         node["names"] = registered + node["names"]
 
         if level > self.md_config.heading_anchors:
